@@ -360,6 +360,7 @@ fn hb_strat(_t: Tier) -> BoxedStrategy<crate::checks::c17::Case> {
             slow_open_pct: None,
             trickle: false,
             stall_pct,
+            close_into_silence: false,
         })
         .boxed()
 }
